@@ -90,10 +90,12 @@ def render(q: Dict[str, Any]) -> str:
         return f"(-{R(q['a'])})"
     if k == "not":
         return f"(not {R(q['a'])})"
-    if k == "and":
-        return f"({R(q['a'])} and {R(q['b'])})"
-    if k == "or":
-        return f"({R(q['a'])} or {R(q['b'])})"
+    if k in ("and", "or"):
+        # `flat`: written without inner parentheses, so that Python parses ONE n-ary BoolOp (a and b and c)
+        if q.get("flat") and isinstance(q["a"], dict) and q["a"].get("k") == k:
+            inner = R(dict(q["a"], flat=True))
+            return f"({inner[1:-1]} {k} {R(q['b'])})"
+        return f"({R(q['a'])} {k} {R(q['b'])})"
     if k == "if":
         return f"({R(q['a'])} if {R(q['c'])} else {R(q['b'])})"
     if k in ("Select", "Where", "SelectMany"):
@@ -192,6 +194,8 @@ class Gen:
         return False
 
     def guarded_first(self, env, depth, ty):
+        import copy
+
         """The idioms users write to protect First(): the guard and the First range over the same sequence.
         double: `First(s) if Count(s) > 0 else c`, `c if Count(s) == 0 else First(s)` (First possibly inside arithmetic);
         bool:   `Count(s) > 0 and First(s) > c`, `Count(s) == 0 or First(s) > c`."""
@@ -211,6 +215,20 @@ class Gen:
         empty = {"k": "cmp", "op": "==", "a": cnt, "b": {"k": "int", "v": 0}}
         if ty == "bool":
             test = {"k": "cmp", "op": r.choice(["<", ">", ">=", "=="]), "a": fst, "b": self.const(r.choice(NUM))}
+            if r.random() < 0.35 and isinstance(et, str):
+                # three operands in one chain: the sequence is non-empty, its filtered part is non-empty, First of the
+                # filtered part — the second operand protects the third
+                x = self.fresh()
+                pred = {"k": "cmp", "op": r.choice([">", "<", ">="]), "a": {"k": "var", "n": x}, "b": self.const(et if et in NUM else "double")}
+                fs = {"k": "Where", "s": copy.deepcopy(s), "x": x, "f": pred}
+                cnt2 = {"k": "Count", "s": copy.deepcopy(fs)}
+                test2 = {"k": "cmp", "op": r.choice(["<", ">", ">="]), "a": {"k": "First", "s": fs}, "b": self.const(r.choice(NUM))}
+                self.op("Where"); self.op("Count"); self.op("First")
+                if r.random() < 0.5:
+                    self.op("and"); self.op("and")
+                    return {"k": "and", "flat": True, "a": {"k": "and", "a": nonempty, "b": {"k": "cmp", "op": ">", "a": cnt2, "b": {"k": "int", "v": 0}}}, "b": test2}
+                self.op("or"); self.op("or")
+                return {"k": "or", "flat": True, "a": {"k": "or", "a": empty, "b": {"k": "cmp", "op": "==", "a": cnt2, "b": {"k": "int", "v": 0}}}, "b": test2}
             if r.random() < 0.5:
                 self.op("and")
                 return {"k": "and", "a": nonempty, "b": test}
@@ -243,7 +261,15 @@ class Gen:
         return True
 
     def lam(self, env, x, et, depth, ty):
-        return self.dep(self.scalar(env + [(x, et)], depth, ty), x, et, ty)
+        # `in_lam` > 0: inside the body of a projection / predicate. An index expression there is evaluated by the
+        # generated code only where its value is consumed (Count() or First() of the projection do not evaluate it
+        # for every element) while the reference semantics maps the body over all elements: whether a bad index in
+        # an unconsumed projection must fail is not fixed by the property, so indexes are generated in row columns only.
+        self.in_lam = getattr(self, "in_lam", 0) + 1
+        try:
+            return self.dep(self.scalar(env + [(x, et)], depth, ty), x, et, ty)
+        finally:
+            self.in_lam -= 1
 
     # ---- sequences; returns (expr, elemtype) where elemtype in int,double,bool,("obj",coll),("seq",t)
     def coll(self, env):
@@ -364,6 +390,9 @@ class Gen:
                 return {"k": "cmp", "op": r.choice([">", ">=", "=="]), "a": {"k": "Count", "s": s}, "b": {"k": "int", "v": r.choice([0, 1, 2])}}
             if c in ("and", "or"):
                 self.op(c)
+                if r.random() < 0.3:
+                    self.op(c)
+                    return {"k": c, "flat": True, "a": {"k": c, "a": self.scalar(env, depth - 1, "bool"), "b": self.scalar(env, depth - 1, "bool")}, "b": self.scalar(env, depth - 1, "bool")}
                 return {"k": c, "a": self.scalar(env, depth - 1, "bool"), "b": self.scalar(env, depth - 1, "bool")}
             if c == "not":
                 self.op("not")
@@ -372,7 +401,7 @@ class Gen:
         # numeric
         opts = ["bin"] * 4 + ["count", "sum", "agg", "neg", "if", "leaf"]
         if ty == "double":
-            opts += ["div"]
+            opts += ["div", "pow", "index"]
             if self.allow_fn:
                 opts += ["fn"]
             if self.allow_first:
@@ -386,6 +415,35 @@ class Gen:
             ta = ty if ty == "int" else r.choice(NUM)
             tb = ty if ty == "int" else ("double" if ta == "int" else r.choice(NUM))
             return {"k": "bin", "op": op, "a": self.scalar(env, depth - 1, ta), "b": self.scalar(env, depth - 1, tb)}
+        if c == "pow":
+            self.op("**")
+            form = r.choice(["sq", "sq", "neg_count", "two_neg"])
+            if form == "sq":
+                return {"k": "bin", "op": "**", "a": self.scalar(env, depth - 1, r.choice(NUM)), "b": {"k": "int", "v": r.choice([2, 3])}}
+            sq, _ = self.seq(env, max(depth - 1, 0))
+            self.op("Count")
+            if form == "neg_count":  # an int base that is never 0, a negative int exponent: a fraction in Python
+                return {"k": "bin", "op": "**", "a": {"k": "bin", "op": "+", "a": {"k": "Count", "s": sq}, "b": {"k": "int", "v": 1}}, "b": {"k": "int", "v": r.choice([-1, -2])}}
+            return {"k": "bin", "op": "**", "a": {"k": "int", "v": 2}, "b": {"k": "neg", "a": {"k": "Count", "s": sq}}}
+        if c == "index":
+            # constant index into a collection: out of range must fail loudly (.at()), in range gives that element
+            objs = self.objs_in(env)
+            has_event = any(t == "event" for _, t in env)
+            forms = (["coll"] if has_event else []) + (["vs", "kids"] if objs else [])
+            if not forms or getattr(self, "in_lam", 0) > 0:
+                return self.leaf(env, ty)
+            form = r.choice(forms)
+            self.op("sub")
+            i = r.choice([0, 0, 1, 2])
+            if form == "coll":
+                sc, et = self.coll(env)
+                return {"k": "meth", "o": {"k": "sub", "a": sc, "i": i}, "n": r.choice(["d", "g", "f", "i"])}
+            n, t = r.choice(objs)
+            if form == "vs":
+                self.op("vs")
+                return {"k": "sub", "a": {"k": "meth", "o": {"k": "var", "n": n}, "n": "vs"}, "i": i}
+            self.op("kids")
+            return {"k": "meth", "o": {"k": "sub", "a": {"k": "meth", "o": {"k": "var", "n": n}, "n": "kids"}, "i": i}, "n": r.choice(["d", "g", "i"])}
         if c == "div":
             self.op("/")
             return {"k": "bin", "op": "/", "a": self.scalar(env, depth - 1, r.choice(NUM)), "b": r.choice([{"k": "int", "v": 2}, {"k": "dbl", "v": "4.0"}, {"k": "int", "v": 4}])}
@@ -522,7 +580,7 @@ class Gen:
     def top(self):
         r = self.rng
         d = r.randint(1, self.max_depth)
-        form = r.choice(["select", "select", "select", "where_select", "selectmany", "selectmany", "selectmany_where", "two_step"])
+        form = r.choice(["select", "select", "select", "where_select", "selectmany", "selectmany", "selectmany_where", "two_step", "selectmany2"])
         e = self.fresh("e")
         env = [(e, "event")]
         ds = {"k": "ds"}
@@ -534,6 +592,20 @@ class Gen:
             cond = self.scalar(env, d, "bool")
             b, names = self.body([(e2, "event")], d)
             return {"k": "Select", "s": {"k": "Where", "s": ds, "x": e, "f": cond}, "x": e2, "f": b}, names, form
+        if form == "selectmany2":
+            # rows per inner element of a two-level SelectMany, with columns from the inner AND the enclosing object
+            sc, et = self.coll(env)
+            a, k = self.fresh("a"), self.fresh("k")
+            ncols = r.randint(2, 3)
+            cols = []
+            for i in range(ncols):
+                who = (k, et) if i == 0 else ((a, et) if (i == ncols - 1 or r.random() < 0.4) else (k, et))
+                cols.append(self.dep(self.scalar([who], 1, r.choice(["int", "double"])), who[0], who[1], "double"))
+            r.shuffle(cols)
+            self.op("SelectMany"); self.op("SelectMany"); self.op("Select"); self.op("kids")
+            inner = {"k": "Select", "s": {"k": "meth", "o": {"k": "var", "n": a}, "n": "kids"}, "x": k, "f": {"k": "tuple", "es": cols} if ncols > 1 else cols[0]}
+            q = {"k": "SelectMany", "s": {"k": "SelectMany", "s": ds, "x": e, "f": sc}, "x": a, "f": inner}
+            return q, [f"col{i}" for i in range(ncols)] if ncols > 1 else ["col1"], form
         if form in ("selectmany", "selectmany_where"):
             s, et = self.seq(env, max(d - 1, 0), "obj")
             if not isinstance(et, tuple):
